@@ -261,6 +261,26 @@ def run_replay(prop_id, path):
 
 
 def main(prop_id, tier='quick', replay=None):
+    """runs _main with a private scratch directory as TMPDIR (inherited by the spawned workers and the fuzzing
+    processes) and removes it afterwards, so that scratch files of workers that are terminated at the end of a wall
+    budget do not stay behind"""
+    import tempfile, shutil
+    scratch = tempfile.mkdtemp(prefix='pv-run-')
+    old_env, old_td = os.environ.get('TMPDIR'), tempfile.tempdir
+    os.environ['TMPDIR'] = scratch
+    tempfile.tempdir = scratch
+    try:
+        return _main(prop_id, tier, replay)
+    finally:
+        tempfile.tempdir = old_td
+        if old_env is None:
+            os.environ.pop('TMPDIR', None)
+        else:
+            os.environ['TMPDIR'] = old_env
+        shutil.rmtree(scratch, ignore_errors=True)
+
+
+def _main(prop_id, tier='quick', replay=None):
     t0 = time.time()
     seed = int(os.environ.get('VERIF_SEED', '1'))
     mod = importlib.import_module('pv.props.' + prop_id.lower())
